@@ -17,9 +17,21 @@ LIB = os.path.join(REPO, 'src', 'libtfhe')
 INC = os.path.join(REPO, 'src', 'include')
 
 
+_built = {}
+
+
 def build(name, sources, extra=(), exe_name=None, stub_undefined=False):
     """compile replay/<name>.cpp together with REAL library sources of the working tree.  With stub_undefined, symbols that
-    only unused functions of an #included library file refer to are defined as aborting stubs (two-pass link)."""
+    only unused functions of an #included library file refer to are defined as aborting stubs (two-pass link).
+    Built once per check process (the working tree does not change during a run)."""
+    key = (name, tuple(sources), tuple(extra), exe_name, stub_undefined)
+    if key in _built:
+        return _built[key]
+    _built[key] = _build(name, sources, extra, exe_name, stub_undefined)
+    return _built[key]
+
+
+def _build(name, sources, extra=(), exe_name=None, stub_undefined=False):
     out = os.path.join(core.BUILD, 'native')
     os.makedirs(out, exist_ok=True)
     exe = os.path.join(out, exe_name or name)
